@@ -20,6 +20,23 @@ def plan(ctx):
 
 def run(ctx):
     res = sf.run_store(ctx, "C03", ["fiber", "tensor"], plan(ctx), validator=("MapTrace.tla", "MapTrace.cfg"), ids=True)
+    # rank-0 tensors: Tensor-level delegation to the single boxed value
+    from . import family
+    r0 = []
+    for _ in range(200 if ctx.quick else 3000):
+        steps = []
+        for _ in range(ctx.rng.randint(1, 6)):
+            if ctx.rng.random() < 0.4:
+                steps.append({"op": "get"})
+            else:
+                steps.append({"op": "write", "kind": ctx.rng.choice(["assign", "add", "mul"]), "v": ctx.rng.randint(0, 3)})
+        r0.append({"v0": ctx.rng.randint(0, 3), "ctor": ctx.rng.choice(["fromUncompressed", "empty"]), "steps": steps})
+    part = family.run_family(ctx, "C03", r0, "harness.exec_rank0", "Rank0Trace.tla", "Rank0Trace.cfg", op_of=lambda c, lg, st: "rank0", where_of=lambda c, lg, st: "tensor0",
+                             name="C03_rank0")
+    res["violations"] += part["violations"]
+    for k in ("traces", "evaluations", "states", "transitions"):
+        res[k] += part[k]
+    res["scope"]["rank0_histories"] = len(r0)
     res["assumptions"] = ["start_pos legal per the documented precondition (position holds a coordinate <= the one searched; 0 always legal)",
                           "caller-supplied default (allocate=False, default=7) is what an absent point reads as; a stored explicit default reads as 0",
                           "raw (unowned) fibers at depth 1, deeper trees through tensors (an empty unowned fiber cannot know its depth)"]
@@ -27,4 +44,7 @@ def run(ctx):
 
 
 def replay(ctx, rec):
+    if rec.get("op") == "rank0":
+        from . import family
+        return family.replay_family(ctx, "C03", rec, "harness.exec_rank0", "Rank0Trace.tla", "Rank0Trace.cfg")
     return sf.replay_store(ctx, rec, "C03", validator=("MapTrace.tla", "MapTrace.cfg"), ids=True)
